@@ -5,6 +5,7 @@ import (
 	"crypto/tls"
 	"crypto/x509"
 	"errors"
+	"net"
 )
 
 // ---- C20: TLS verification table, file errors, credential disclosure ----
@@ -290,4 +291,75 @@ func vh_startup_auth_required() {
 		vAssert(firstKind == 0 || (firstKind == 1 && withAuth && s2), "C20/startup/session-only-after-ready-or-auth-success")
 	}
 	vObserve("err", err != nil)
+}
+
+// ---- the dial path: what reaches crypto/tls for each host that is dialled ----
+//
+// defaultHostDialer.DialHost is run for a sequence of hosts on ONE dialer (the session's), with
+// tls.Client and the handshake stubbed: the stub records the configuration each connection is
+// actually verified with. Asserted per dial: verification on/off is the shared configuration's, and
+// when verifying without an explicit server name the name checked is the host being dialled NOW
+// (not one dialled earlier, whatever host ids the hosts carry - contact points have none).
+
+type vTLSSeen struct {
+	skip bool
+	name string
+}
+
+var vTLSClientCfgs []vTLSSeen
+
+func vstubTLSClient(conn net.Conn, config *tls.Config) *tls.Conn {
+	vTLSClientCfgs = append(vTLSClientCfgs, vTLSSeen{skip: config.InsecureSkipVerify, name: config.ServerName})
+	return nil
+}
+func vstubTLSHandshake(c *tls.Conn, ctx context.Context) error {
+	if vBool("handshake_fails") {
+		return vErrIO
+	}
+	return nil
+}
+
+type vDialer struct{ dials []string }
+
+func (d *vDialer) DialContext(ctx context.Context, network, addr string) (net.Conn, error) {
+	d.dials = append(d.dials, addr)
+	return &vNetConn{}, nil
+}
+
+func vh_dial_host_tls() {
+	skip := vBool("insecure_skip_verify")
+	name := vString("server_name", 2)
+	shared := &tls.Config{InsecureSkipVerify: skip, ServerName: name}
+	d := &vDialer{}
+	hd := &defaultHostDialer{dialer: d, tlsConfig: shared}
+	// host ids: both empty (contact points), equal, or different
+	ids := [][2]string{{"", ""}, {"id-1", "id-1"}, {"id-1", "id-2"}}[vChoose("host_ids", 3)]
+	names := []string{"node-a.example", "node-b.example", ""}
+	hosts := []*HostInfo{
+		{hostId: ids[0], hostname: names[vChoose("name_a", 3)], connectAddress: net.IPv4(10, 0, 0, 1), port: 9042},
+		{hostId: ids[1], hostname: names[vChoose("name_b", 3)], connectAddress: net.IPv4(10, 0, 0, 2), port: 9042},
+	}
+	vTLSClientCfgs = nil
+	for i, h := range hosts {
+		want := h.hostname
+		if want == "" {
+			want = h.connectAddress.String()
+		}
+		n0 := len(vTLSClientCfgs)
+		_, _ = hd.DialHost(context.Background(), h)
+		vAssert(len(vTLSClientCfgs) == n0+1, "C20/dial/tls-configured-dialer-always-wraps-in-tls")
+		if len(vTLSClientCfgs) != n0+1 {
+			return
+		}
+		got := vTLSClientCfgs[n0]
+		vAssert(got.skip == skip, "C20/dial/verification-as-configured")
+		if !skip && name == "" {
+			vAssert(got.name == want, "C20/dial/certificate-checked-against-the-host-being-dialled")
+		} else {
+			vAssert(got.name == name, "C20/dial/explicit-server-name-kept")
+		}
+		vAssert(shared.InsecureSkipVerify == skip && shared.ServerName == name, "C20/dial/shared-config-not-mutated")
+		_ = i
+	}
+	vObserve("dials", len(d.dials))
 }
